@@ -4,6 +4,7 @@
 From Coq Require Import String List Bool Permutation.
 From GV Require Import Base.Outcome Base.AMap Model.GState Model.Creation Model.Query Spec.AGraph.
 From GV Require Import Proofs.WFDefs Proofs.AdjOk Proofs.QueryOk.
+From GV Require Import Spec.History Proofs.WFEdge Proofs.HistoryRefine Proofs.InsertionOrder.
 From GV Require Import Spec.ReachDef Spec.CompSpec Spec.EdgeAdj Proofs.CompWF.
 Import ListNotations.
 
@@ -182,4 +183,185 @@ Section C02.
     WF g -> ~ In x (names g) ->
     breadth_first_search teqb g x = Panic "query.rs:get_successors_or_neighbors unwrap".
   Proof. exact (bfs_absent teqb tltb). Qed.
+
+  (* ---- "all parallel edges are retrievable, IN INSERTION ORDER" (Proofs/InsertionOrder.v) ----
+     C02_get_edges says get_edges = stored_between = the pair's edges in the order of get_all_edges.
+     The theorems below tie that order to the order of the caller's add_edge calls.
+
+     One add_edge call that returns Ok on a coherent multigraph, for EVERY pair u v: the list
+     stored between u and v is the old one, with the new edge (oriented smaller name first when
+     undirected: od_of) APPENDED iff its endpoints are that pair (hits); a dropped self-loop
+     (dropped) changes nothing. *)
+  Notation edge := (edge T A).
+  Notation mutation := (mutation T A).
+
+  Theorem C02_parallel_edges_insertion_order_step : forall (g : gstate) (e : edge) u v,
+    WF g -> multi (sp g) = true -> snd (add_edge teqb tltb g e) = Ok tt -> dropped teqb (sp g) e = false ->
+    stored_between teqb tltb (fst (add_edge teqb tltb g e)) u v =
+    stored_between teqb tltb g u v ++ (if hits teqb tltb (sp g) e u v then [od_of tltb (sp g) e] else []).
+  Proof. exact (add_edge_multi_step teqb tltb teqb_spec tltb_asym tltb_total). Qed.
+
+  Theorem C02_hits_iff : forall s (e : edge) u v,
+    hits teqb tltb s e u v = true <->
+    ((u = eu e /\ v = ev e) \/ (directed s = false /\ u = ev e /\ v = eu e)).
+  Proof. exact (hits_iff teqb tltb teqb_spec tltb_asym tltb_total). Qed.
+
+  (* single-edge graph: first insertion creates the singleton, KeepLast replaces it by the new edge,
+     KeepFirst keeps the old one; under Error a second insertion does not return Ok *)
+  Theorem C02_single_edge_step : forall (g : gstate) (e : edge) u v,
+    WF g -> multi (sp g) = false -> snd (add_edge teqb tltb g e) = Ok tt -> dropped teqb (sp g) e = false ->
+    stored_between teqb tltb (fst (add_edge teqb tltb g e)) u v =
+    if hits teqb tltb (sp g) e u v then
+      match stored_between teqb tltb g u v with
+      | [] => [od_of tltb (sp g) e]
+      | old => match dd (sp g) with DKeepLast => [od_of tltb (sp g) e] | _ => old end
+      end
+    else stored_between teqb tltb g u v.
+  Proof. exact (add_edge_single_step teqb tltb teqb_spec tltb_asym tltb_total). Qed.
+
+  Theorem C02_single_edge_occupied_error : forall (g : gstate) (e : edge),
+    WF g -> multi (sp g) = false -> dd (sp g) = DErr -> dropped teqb (sp g) e = false ->
+    stored_between teqb tltb g (eu e) (ev e) <> [] -> snd (add_edge teqb tltb g e) <> Ok tt.
+  Proof. exact (add_edge_single_occupied_error teqb tltb teqb_spec tltb_asym tltb_total). Qed.
+
+  (* the calls that store nothing: a dropped self-loop, an error, add_node, add_nodes *)
+  Theorem C02_other_calls_keep_order : forall (g : gstate),
+    WF g ->
+    (forall (e : edge), dropped teqb (sp g) e = true -> fst (add_edge teqb tltb g e) = g) /\
+    (forall (e : edge) k u v, snd (add_edge teqb tltb g e) = Err k ->
+        stored_between teqb tltb (fst (add_edge teqb tltb g e)) u v = stored_between teqb tltb g u v) /\
+    (forall n g' u v, add_node teqb g n = Ok g' -> stored_between teqb tltb g' u v = stored_between teqb tltb g u v) /\
+    (forall ns g' u v, add_nodes teqb g ns = Ok g' -> stored_between teqb tltb g' u v = stored_between teqb tltb g u v).
+  Proof.
+    intros g W. split; [exact (add_edge_dropped_step teqb tltb g)|].
+    split; [intros e k u v; exact (add_edge_err_step teqb tltb teqb_spec tltb_asym tltb_total g e k u v W)|].
+    split; [intros n g' u v; exact (add_node_step teqb tltb teqb_spec g g' n u v W)
+           |intros ns g' u v; exact (add_nodes_step teqb tltb teqb_spec ns g g' u v W)].
+  Qed.
+
+  (* a batch = its add_edge calls one by one, stopping after the first that fails (batch_log lists
+     them with their outcomes; replay folds the one-step law over such a list) *)
+  Theorem C02_batch_insertion_order_step : forall es (g : gstate) u v,
+    WF g ->
+    stored_between teqb tltb (fst (add_edges teqb tltb g es)) u v =
+    replay teqb tltb (sp g) u v (batch_log teqb tltb g es) (stored_between teqb tltb g u v).
+  Proof. exact (add_edges_step teqb tltb teqb_spec tltb_asym tltb_total). Qed.
+
+  (* WHOLE HISTORIES.  edge_log (new s) ms = every add_edge call the history performs (direct or
+     through a batch), in call order, paired with the outcome it returned.  inserted_between, a
+     function of that log and the specs alone: the calls that returned Ok, were not a dropped
+     self-loop and hit the pair, in call order and storage orientation (calls_between); all of them
+     on a multigraph, the first (KeepFirst/Error) or the last (KeepLast) on a single-edge graph. *)
+  Theorem C02_parallel_edges_insertion_order_history : forall s (ms : list mutation) u v,
+    stored_between teqb tltb (fst (run_outs teqb tltb (new s) ms)) u v =
+    inserted_between teqb tltb s (edge_log teqb tltb (new s) ms) u v.
+  Proof. exact (insertion_order_history teqb tltb teqb_spec tltb_asym tltb_total). Qed.
+
+  Theorem C02_inserted_between_unfold : forall s (log : list (edge * outcome unit)) u v,
+    inserted_between teqb tltb s log u v =
+    let calls := map (od_of tltb s)
+                   (filter (fun e => hits teqb tltb s e u v)
+                      (map fst (filter (fun p => is_ok (snd p) && negb (dropped teqb s (fst p))) log))) in
+    if multi s then calls
+    else match dd s with
+         | DKeepLast => match rev calls with [] => [] | x :: _ => [x] end
+         | _ => firstn 1 calls
+         end.
+  Proof. reflexivity. Qed.
+
+  (* get_edges after any history: exactly the caller's accepted parallel edges, in call order *)
+  Theorem C02_get_edges_history : forall s (ms : list mutation) u v,
+    let g := fst (run_outs teqb tltb (new s) ms) in
+    get_edges teqb g u v =
+    if negb (multi s) then Err WrongMethod
+    else if negb (existsb (fun n => teqb (nname n) u) (nodes_vec g))
+            || negb (existsb (fun n => teqb (nname n) v) (nodes_vec g)) then Err NodeNotFound
+    else match calls_between teqb tltb s (edge_log teqb tltb (new s) ms) u v with
+         | [] => Err EdgeNotFound | l => Ok l end.
+  Proof. exact (get_edges_history teqb tltb teqb_spec tltb_asym tltb_total). Qed.
+
+  (* get_edge after any history: the first accepted call of the pair, the last one under KeepLast *)
+  Theorem C02_single_edge_kept_history : forall s (ms : list mutation) u v,
+    let g := fst (run_outs teqb tltb (new s) ms) in
+    get_edge teqb g u v =
+    if multi s then Err WrongMethod
+    else if negb (existsb (fun n => teqb (nname n) u) (nodes_vec g))
+            || negb (existsb (fun n => teqb (nname n) v) (nodes_vec g)) then Err NodeNotFound
+    else match calls_between teqb tltb s (edge_log teqb tltb (new s) ms) u v with
+         | [] => Err EdgeNotFound
+         | x :: t => Ok (match dd s with DKeepLast => last t x | _ => x end)
+         end.
+  Proof. exact (get_edge_history teqb tltb teqb_spec tltb_asym tltb_total). Qed.
+
+  (* model-free reading: when every call of the history returned Ok, the log is the history itself —
+     the stored list is computed from the edges the caller passed, in the order he passed them *)
+  Theorem C02_insertion_order_all_ok : forall s (ms : list mutation) u v,
+    Forall (fun r => r = Ok tt) (snd (run_outs teqb tltb (new s) ms)) ->
+    stored_between teqb tltb (fst (run_outs teqb tltb (new s) ms)) u v =
+    kept s (edges_between teqb tltb s (history_edges ms) u v).
+  Proof. exact (insertion_order_all_ok teqb tltb teqb_spec tltb_asym tltb_total). Qed.
+
+  Theorem C02_edges_between_unfold : forall s (es : list edge) u v,
+    edges_between teqb tltb s es u v =
+    map (od_of tltb s) (filter (fun e => hits teqb tltb s e u v) (filter (fun e => negb (dropped teqb s e)) es)).
+  Proof. reflexivity. Qed.
+
+  (* the log of a batch: all Ok and the whole list, or Ok up to the first failing edge whose
+     outcome is the outcome of the batch *)
+  Theorem C02_batch_log : forall es (g : gstate),
+    (snd (add_edges teqb tltb g es) = Ok tt /\ map fst (batch_log teqb tltb g es) = es /\
+     Forall (fun p => snd p = Ok tt) (batch_log teqb tltb g es)) \/
+    (exists pre e rest r, es = pre ++ e :: rest /\ r <> Ok tt /\ snd (add_edges teqb tltb g es) = r /\
+                          batch_log teqb tltb g es = map (fun x => (x, Ok tt)) pre ++ [(e, r)]).
+  Proof. exact (batch_log_outcome teqb tltb). Qed.
+
+  (* new_from_nodes_and_edges is such a history *)
+  Theorem C02_new_from_insertion_order : forall ns es s (g : gstate) u v,
+    new_from_nodes_and_edges teqb tltb ns es s = Ok g ->
+    stored_between teqb tltb g u v = kept s (edges_between teqb tltb s es u v).
+  Proof. exact (new_from_insertion_order teqb tltb teqb_spec tltb_asym tltb_total). Qed.
+
+  Theorem C02_new_from_get_edges : forall ns es s (g : gstate) u v,
+    new_from_nodes_and_edges teqb tltb ns es s = Ok g -> multi s = true ->
+    get_edges teqb g u v =
+    if negb (existsb (fun n => teqb (nname n) u) (nodes_vec g))
+       || negb (existsb (fun n => teqb (nname n) v) (nodes_vec g)) then Err NodeNotFound
+    else match edges_between teqb tltb s es u v with [] => Err EdgeNotFound | l => Ok l end.
+  Proof. exact (new_from_get_edges teqb tltb teqb_spec tltb_asym tltb_total). Qed.
 End C02.
+
+(* non-vacuity, evaluated: an undirected multigraph, names whose sort order (2 < 5 < 9) differs from
+   insertion order (5, 2, 9), MissingNode = Error for the third call (rejected: 7 is not a node),
+   parallel edges given in both orientations with weights 5, 2, 7 — get_edges 2 5 and get_edges 5 2
+   list the weights 5, 2, 7 in call order, all stored as (2,5); the rejected and the other-pair
+   calls do not show; the same through new_from_nodes_and_edges and, on the KeepFirst / KeepLast
+   single-edge graphs, get_edge answers weight 5 / weight 7. *)
+From Coq Require Import ZArith.
+Definition c02_ms (m : bool) (d : dedupe) := mkspecs false d MErr m true SErr.
+Definition c02_hist : list (mutation Z Z) :=
+  [MutNodes [mknode 5 None; mknode 2 None; mknode 9 None];
+   MutEdge (mkedge 5 2 (Some 5) None);
+   MutEdge (mkedge 7 2 (Some 1) None);
+   MutEdges [mkedge 2 5 (Some 2) None; mkedge 9 5 (Some 3) None];
+   MutEdge (mkedge 5 2 (Some 7) None)]%Z.
+Example C02_insertion_order_nonvacuous :
+  (let g := fst (run_outs Z.eqb Z.ltb (new (c02_ms true DErr)) c02_hist) in
+  snd (run_outs Z.eqb Z.ltb (new (c02_ms true DErr)) c02_hist)
+    = [Ok tt; Ok tt; Err NodeNotFound; Ok tt; Ok tt] /\
+  get_edges Z.eqb g 2 5 = Ok [mkedge 2 5 (Some 5) None; mkedge 2 5 (Some 2) None; mkedge 2 5 (Some 7) None] /\
+  get_edges Z.eqb g 5 2 = get_edges Z.eqb g 2 5 /\
+  inserted_between Z.eqb Z.ltb (c02_ms true DErr) (edge_log Z.eqb Z.ltb (new (c02_ms true DErr)) c02_hist) 5 2
+    = [mkedge 2 5 (Some 5) None; mkedge 2 5 (Some 2) None; mkedge 2 5 (Some 7) None] /\
+  map (fun e => ew e) (flat_map snd (edges g)) = [Some 5; Some 2; Some 7; Some 3] /\
+  (exists g', new_from_nodes_and_edges Z.eqb Z.ltb [mknode 5 None; mknode 2 None]
+                [mkedge 5 2 (Some 5) None; mkedge 2 5 (Some 2) None; mkedge 5 2 (Some 7) None] (c02_ms true DErr)
+              = Ok g' /\
+              get_edges Z.eqb g' 2 5
+              = Ok [mkedge 2 5 (Some 5) (@None Z); mkedge 2 5 (Some 2) None; mkedge 2 5 (Some 7) None]) /\
+  get_edge Z.eqb (fst (run_outs Z.eqb Z.ltb (new (c02_ms false DKeepFirst)) c02_hist)) 5 2
+    = Ok (mkedge 2 5 (Some 5) None) /\
+  get_edge Z.eqb (fst (run_outs Z.eqb Z.ltb (new (c02_ms false DKeepLast)) c02_hist)) 5 2
+    = Ok (mkedge 2 5 (Some 7) None) /\
+  snd (run_outs Z.eqb Z.ltb (new (c02_ms false DErr)) c02_hist)
+    = [Ok tt; Ok tt; Err NodeNotFound; Err DuplicateEdge; Err DuplicateEdge])%Z.
+Proof. vm_compute. repeat split; try reflexivity. eexists. split; reflexivity. Qed.
